@@ -1171,7 +1171,7 @@ fn host_buffer_writers(ctx: &Ctx) -> u64 {
 
 pub fn run(tier: Tier, replay: Option<String>) -> i32 {
     let ctx = crate::new_ctx("C14", tier, "fault_enumeration", &replay);
-    ctx.set_rule("choice-tree DFS: every call the transfer makes to the underlying stream is a choice among full / short by k / zero / EINTR (<=3 in a row) / hard error of four kinds (other, WouldBlock, BrokenPipe, TimedOut); scripts of up to max_calls scripted calls, at most `bound` non-default answers per script (all bounds 0..=B enumerated completely); streams: a scripted ReadVolatile/WriteVolatile and the real File adapter over interposed read(2)/write(2); targets: slice, region, guest memory with two adjacent regions, a hole and a third region behind it (ranges may end in the hole or behind it); a case is non-trivial when its script contains at least one non-default answer; distinct = distinct (case, script) pairs, by construction of the DFS; plus, for every case, runs of 4, 33, 64 and 1000 EINTR answers in a row (alone and after a one-byte transfer) followed by default answers; plus host byte buffers as readers (&[u8], Cursor<&[u8]>, Cursor<Vec<u8>>) holding fewer, as many or more bytes than asked, both read forms at three levels, followed by a second transfer from the same reader (what left the reader is in guest memory, in order); plus transfers of 1 MiB+2 .. 3 MiB+4101 bytes in one call at slice, region and two-region guest-memory level, all four forms, with short calls of 1, 2^20-1, 2^20, 2^20+1 and 2^21+5 bytes and with streams capped at 700001 bytes per call, and with the first, second, third or fourth stream call failing (the error surfaces, what arrived before it is in place)");
+    ctx.set_rule("choice-tree DFS: every call the transfer makes to the underlying stream is a choice among full / short by k / zero / EINTR (<=3 in a row) / hard error of four kinds (other, WouldBlock, BrokenPipe, TimedOut); scripts of up to max_calls scripted calls, at most `bound` non-default answers per script (all bounds 0..=B enumerated completely); streams: a scripted ReadVolatile/WriteVolatile and the real File adapter over interposed read(2)/write(2); targets: slice, region, guest memory with two adjacent regions, a hole and a third region behind it (ranges may end in the hole or behind it); a case is non-trivial when its script contains at least one non-default answer; distinct = distinct (case, script) pairs, by construction of the DFS; plus, for every case, runs of 4, 33, 64 and 1000 EINTR answers in a row (alone and after a one-byte transfer) followed by default answers; plus host byte buffers as readers (&[u8], Cursor<&[u8]>, Cursor<Vec<u8>>) holding fewer, as many or more bytes than asked, both read forms at three levels, followed by a second transfer from the same reader (what left the reader is in guest memory, in order); plus host byte buffers as writers (&mut [u8], Cursor<&mut [u8]>, Vec<u8>) with room for fewer, as many or more bytes than the drain asks for, at sink positions 0 and 2, both write forms at three levels, followed by a second drain into the same sink (what the sink reports as accepted is the next guest bytes in order, the rest of the sink is untouched); plus transfers of 1 MiB+2 .. 3 MiB+4101 bytes in one call at slice, region and two-region guest-memory level, all four forms, with short calls of 1, 2^20-1, 2^20, 2^20+1 and 2^21+5 bytes and with streams capped at 700001 bytes per call, and with the first, second, third or fourth stream call failing (the error surfaces, what arrived before it is in place)");
     ctx.assume("the scripted stream and the interposed syscalls deliver exactly what the script says");
     if let Err(e) = crate::interpose::selftest() {
         ctx.machinery(&format!("interposition self-test failed: {}", e));
